@@ -73,6 +73,12 @@ class Runner:
         return out
 
 
+def run_seq(rn, texts, name='host'):
+    """all requests in ONE process, in the given order (a directive must not remember earlier directives)"""
+    reqs = [{'op': 'directive', 'text': t, 'file': name, 'root': rn.sr.dir, 'abi': rn.cfg.abi, 'version': float(rn.cfg.ver)} for t in texts]
+    return gox.jsonl(rn.bins['applyx'], reqs, env={'DISTRIBUTION': rn.cfg.dist})
+
+
 def dbus_rules(text):
     """dbus rules of a text as dicts (independent tokenizer)"""
     res = []
@@ -250,10 +256,27 @@ def exec_part(rn, base, tier, ev, fnd):
     for tr, targets, indent, origin in cases:
         pad = ' ' * indent
         texts.append('profile host {\n%s/x r,\n\n%s#aa:exec %s\n\n%sinclude if exists <local/host>\n}\n' % (pad, pad, ' '.join(([tr] if tr else []) + targets), pad))
-    res = rn.run(texts)
+    fresh = rn.run(texts)
+    # the same directives again inside one process, in both orders: the expansion must not depend on what ran before
+    fwd = run_seq(rn, texts)
+    rev = list(reversed(run_seq(rn, list(reversed(texts)))))
+    runs = [(c, t, r, 'fresh process') for c, t, r in zip(cases, texts, fresh)]
+    runs += [(c, t, r, 'same process, after the preceding cases') for c, t, r in zip(cases, texts, fwd)]
+    runs += [(c, t, r, 'same process, reverse order') for c, t, r in zip(cases, texts, rev)]
+    # two directives in one host naming the same target with different transitions
+    for tr1, tr2 in (('', 'U'), ('U', ''), ('P', 'pu'), ('pu', 'PU')):
+        t = 'profile host {\n  /x r,\n\n  #aa:exec %s\n\n  profile sub {\n    #aa:exec %s\n  }\n\n  include if exists <local/host>\n}\n' % (
+            (tr1 + ' gen-t2').strip(), (tr2 + ' gen-t2').strip())
+        r = rn.run([t])[0]
+        if r.get('err') or r.get('panic'):
+            fnd.report('exec-fails origin=generated', 'two exec directives in one host fail: %s' % (r.get('err') or r.get('panic')), {'text': t}); continue
+        modes = [c.get('perms') for c in (scan.classify(x.raw) for x in scan.rules(r['out'])) if c['kind'] == 'file' and c.get('path') != '/x']
+        want = [(tr1 or 'P') + 'x'] * 2 + [(tr2 or 'P') + 'x'] * 2
+        if sorted(modes) != sorted(want):
+            fnd.report('exec-mode-wrong two-directives-one-target', 'host with `#aa:exec %s gen-t2` and `#aa:exec %s gen-t2`: generated modes %s, requested %s' % (tr1, tr2, modes, want), {'text': t, 'out': r['out']})
     vals = {}
-    for (tr, targets, indent, origin), t, r in zip(cases, texts, res):
-        where = '#aa:exec %s [%s]' % (' '.join(([tr] if tr else []) + targets), origin)
+    for (tr, targets, indent, origin), t, r, how in runs:
+        where = '#aa:exec %s [%s, %s]' % (' '.join(([tr] if tr else []) + targets), origin, how)
         if r.get('err') or r.get('panic'):
             fnd.report('exec-fails origin=%s' % ('generated' if origin == 'generated' else 'shipped'), '%s fails: %s' % (where, r.get('err') or r.get('panic')), {'text': t}); continue
         out = r['out']
@@ -280,7 +303,7 @@ def exec_part(rn, base, tier, ev, fnd):
         for x in scan.rules(out):
             if scan.classify(x.raw)['kind'] == 'file' and scan.classify(x.raw).get('path') != '/x' and x.indent != indent:
                 fnd.report('exec-indentation', '%s: generated rule indented by %d instead of %d' % (where, x.indent, indent), {'out': out})
-    ev.add(transitions=len(cases), exec_directives=len(cases), exec_shipped=sum(1 for c in cases if c[3] != 'generated'))
+    ev.add(transitions=len(runs) + 4, exec_directives=len(cases), exec_runs=len(runs) + 4, exec_shipped=sum(1 for c in cases if c[3] != 'generated'))
     ev.sample({'directive': '#aa:exec PU gen-t2 gen-t1', 'expected_paths': (vals.get('gen-t2') or []) + (vals.get('gen-t1') or [])})
 
 
